@@ -387,6 +387,56 @@ def g_chains(rng, total_max=8, kind=None):
     return "\n".join(lines)
 
 
+def g_wide(rng, k=None):
+    """One update function with many regulators and shared sub-structure (a multiplexer tree over the
+    first inputs with non-trivial leaf functions over the others: large BDDs with shared sub-graphs,
+    the shape of signalling functions in the published models); the inputs are identity functions."""
+    k = k or rng.randint(7, 8)
+    ins = [f"a{j}" for j in range(k)]
+    nsel = rng.randint(2, 3)
+    sel, rest = ins[:nsel], ins[nsel:]
+
+    def leaf():
+        vs = rng.sample(rest, min(len(rest), rng.randint(3, 4)))
+        forms = ["{0} | {1} | ({2} & {3})", "{3} & ({0} | {1})", "({0} & {1}) | ({2} & {3})", "{0} | ({1} & {2})",
+                 "{0} & {1} & {2}", "({0} | {1}) & ({2} | {3})", "({0} & !{1}) | (!{0} & {1}) | {2}"]
+        vs = (vs * 2)[:4]
+        return "(" + rng.choice(forms).format(*vs) + ")"
+
+    def mux(d):
+        if d >= len(sel):
+            return leaf()
+        return f"(({sel[d]} & {mux(d + 1)}) | (!{sel[d]} & {mux(d + 1)}))"
+
+    p, q = rng.sample(ins, 2)
+    lines = [f"{v}, {v}" for v in ins]
+    if rng.random() < 0.5 and len(rest) >= 4:
+        # two branches over different variables that share one large sub-function (a parity)
+        g4 = rng.sample(rest, 4)
+        def xor(a, b):
+            return f"(({a} & !{b}) | (!{a} & {b}))"
+        G = xor(xor(g4[0], g4[1]), xor(g4[2], g4[3]))
+        u, w = rng.sample([v for v in ins if v not in g4 and v != sel[0]] or rest, 2) if len([v for v in ins if v not in g4 and v != sel[0]]) >= 2 else (sel[-1], rest[0])
+        lines.append(f"x, ({sel[0]} & {u} & {G}) | (!{sel[0]} & {w} & {G})")
+    else:
+        lines.append(f"x, ({mux(0)}) & (!{p} | !{q} | !x)")
+    return "\n".join(lines)
+
+
+def g_idtrap(rng, nmax=6):
+    """A gate variable (input or latch) under which several other variables degenerate to identity
+    functions: inside the trap space fixing the gate, the percolated network consists (mostly) of
+    source variables - the situation of the source-node shortcuts below the root."""
+    k = rng.randint(2, max(2, nmax - 1))
+    vs = [f"w{i}" for i in range(k)]
+    lines = ["g, g" if rng.random() < 0.6 else f"g, g | ({rng.choice(vs)} & {rng.choice(vs)})"]
+    for v in vs:
+        o = rng.choice([x for x in vs if x != v])
+        form = rng.choice(["{v} | g", "{v} & !g", "{v} | !g", "{v} & g", "{v} | (g & {o})", "{v} & (!g | {o})", "({v} & !g) | (g & {o})", "{v}"])
+        lines.append(f"{v}, " + form.format(v=v, o=o))
+    return "\n".join(lines)
+
+
 def g_union(rng, nmax=6):
     """Two (or three) independent modules side by side - several source SCCs, each with its own nested
     trap spaces - optionally feeding a common downstream variable."""
